@@ -398,7 +398,29 @@ def library_probe(seed, idx, name="std.axi-aw-before-w"):
     return dutm.guarded(go)
 
 
+def table_runs(tier):
+    return (len(CASES) + len(PROBES)) * (1 if tier == "quick" else 6)
+
+
+def generated(seed, idx, tier, j):
+    """the read-before-write monitor over GENERATED designs: the C03 programs (helpers with several return paths, hoisted
+    expressions, matches, for-break chains) and the C01 coroutines (state machines: nothing computed in one state may be
+    consumed in another).  Only the read-before-write class is this property's; any other outcome belongs to C03 / C01."""
+    from vf.props import c01, c03
+
+    which = "c03" if j % 3 else "c01"
+    r = (c03 if which == "c03" else c01).run_one(seed, j, tier)
+    res = {"idx": idx, "shape": f"gen:{which}:{r.get('shape')}", "case": {"c": "generated", "defs": [], "pre": 0, "use": which, "ctx": which}, "expected": "accept", "outcome": "accepted" if r["status"] in ("ok", "violation") else r["status"]}
+    if r["status"] == "violation" and r.get("vclass") == "rbw":
+        res.update(status="violation", vclass="rbw", detail=dict(r["detail"], case=res["case"], generator=which, generator_run=j), payload={"case": res["case"], "seed": seed, "idx": idx, "tier": tier, "gen": which, "j": j})
+    else:
+        res.update(status="ok", paths_forced=1 if r["status"] == "ok" else 0, generated_outcome=r["status"] if r["status"] != "violation" else "other-property:" + str(r.get("vclass")))
+    return res
+
+
 def run_one(seed, idx, tier):
+    if idx >= table_runs(tier):
+        return generated(seed, idx, tier, idx - table_runs(tier))
     slot = idx % (len(CASES) + len(PROBES))
     if slot >= len(CASES):
         name = PROBES[slot - len(CASES)]
@@ -451,6 +473,9 @@ def run_one(seed, idx, tier):
 
 def replay(payload):
     c = payload["case"]
+    if payload.get("gen"):
+        r = generated(payload["seed"], payload["idx"], payload["tier"], payload["j"])
+        return (r["vclass"], r["detail"]) if r["status"] == "violation" else ("ok", {})
     if c["c"] == "probe":
         out = library_probe(payload["seed"], payload["idx"], c["use"])
         return (out[0], out[1]) if len(out) == 2 else ("ok", {})
@@ -465,7 +490,7 @@ def replay(payload):
 
 
 def plan(tier):
-    return (len(CASES) + len(PROBES)) * (1 if tier == "quick" else 6)
+    return table_runs(tier) + (600 if tier == "quick" else 12000)
 
 
 def finding_key(r):
@@ -478,7 +503,8 @@ def finding_key(r):
 
 
 ASSUMPTIONS = [
-    "the dynamic half (read-before-write monitor = poison fault) is on in every simulated check (C01, C03, C04, C12, C14-C16, C20); this module is the enumerated static half",
+    "the dynamic half (read-before-write monitor = poison fault) is on in every simulated check (C01, C03, C04, C12, C14-C16, C20); this module is the enumerated static half "
+    "plus a sweep of the monitor over generated C03 programs and C01 coroutines (only the read-before-write class of their outcomes is reported here)",
     "expected-reject table written from the statement: value defined in only some branches and used afterwards / in a sibling branch / in a later state",
     "an unexpected rejection of a program the table marks acceptable is counted, not flagged (the statement does not promise acceptance)",
 ]
@@ -504,6 +530,12 @@ def evidence(results, tier):
         "samples": sample or [{"note": "no sample"}],
         "exhaustive": False,
         "cases": len(CASES),
+        "generated_designs_under_the_read_before_write_monitor": {
+            "C03 programs": len([r for r in results if r["case"]["c"] == "generated" and r["case"]["use"] == "c03"]),
+            "C01 coroutines": len([r for r in results if r["case"]["c"] == "generated" and r["case"]["use"] == "c01"]),
+            "simulated_to_the_end": len([r for r in results if r["case"]["c"] == "generated" and r.get("paths_forced")]),
+            "outcomes": {k: len([r for r in results if r.get("generated_outcome") == k]) for k in sorted({r.get("generated_outcome") for r in results if r.get("generated_outcome")})},
+        },
         "outcome_matrix(expected->observed)": by,
         "unexpected_rejections": len([r for r in rej if r.get("unexpected_rejection")]),
         "rejection_reasons": reasons,
